@@ -158,6 +158,26 @@ Proof.
   apply fupd_cases in H. destruct H as [[-> _]|[_ H]]; auto.
 Qed.
 
+
+(* ---------- the body of a save and the hand-over to a queued one ---------- *)
+Lemma save_body_fields s :
+  let s' := fst (save_body s) in
+  s_offs s' = s_offs s /\ s_ctxs s' = s_ctxs s /\ s_store s' = s_store s /\ s_any_dirty s' = false /\
+  (forall vb, s_dirty s' vb = None) /\ s_failed s' = s_failed s /\ s_range s' = s_range s /\ s_active s' = s_active s /\
+  s_obs s' = s_obs s /\
+  s_inflight s' = Some (dump_of (s_offs s) (range_list (s_range s)), dirty_of (s_dirty s) all_vbs) /\
+  snd (save_body s) = [MetaSave (dump_of (s_offs s) (range_list (s_range s))) (dirty_of (s_dirty s) all_vbs)].
+Proof. unfold save_body; cbn. repeat split; reflexivity. Qed.
+
+Lemma next_queued_fields s :
+  let s' := fst (next_queued s) in
+  s_offs s' = s_offs s /\ s_ctxs s' = s_ctxs s /\ s_store s' = s_store s /\ s_failed s' = s_failed s /\
+  s_range s' = s_range s /\ s_active s' = s_active s /\ s_obs s' = s_obs s.
+Proof.
+  unfold next_queued. destruct (s_queued s); [repeat split; reflexivity|].
+  unfold save_body; cbn. repeat split; reflexivity.
+Qed.
+
 (* ---------- the state invariant: C06 validity + C05 "dirty implies flagged" ---------- *)
 Record Inv (s : sstate) : Prop := {
   inv_offs : forall vb o, s_offs s vb = Some o -> valid o;
@@ -215,10 +235,23 @@ Proof.
   intros I H1 H2 H3 H4 H5 H6. constructor; rewrite ?H1, ?H2, ?H3, ?H4, ?H5, ?H6; apply I.
 Qed.
 
+Lemma Inv_save_body s : Inv s -> Inv (fst (save_body s)).
+Proof.
+  intros I. unfold save_body; cbn [fst]. constructor; cbn; try apply I; try discriminate.
+  intros dump dl [= <- <-] vb d Hd. apply lookup_dump_of in Hd. destruct Hd as (o & Ho & ->).
+  apply valid_doc_of. exact (inv_offs s I vb o Ho).
+Qed.
+
+Lemma Inv_next_queued s : Inv s -> Inv (fst (next_queued s)).
+Proof.
+  intros I. unfold next_queued. destruct (s_queued s) as [|q]; [exact I|].
+  apply Inv_save_body. eapply Inv_proj; eauto.
+Qed.
+
 Theorem Inv_step s o : Inv s -> Inv (fst (step s o)).
 Proof.
   intros I. unfold step. destruct (s_failed s); [exact I|].
-  destruct o as [first last sv| |first last sv|cancel|vb e|i| |vb|ok| |high|vb c uuid roll].
+  destruct o as [first last sv| |first last sv|cancel|vb e|i| | |vb|ok| |high|vb c uuid roll].
   - (* Open *)
     destruct (s_open s || s_balancing s); [exact I|].
     destruct (do_open s first last sv) as [[s' outs]|] eqn:E; cbn [fst].
@@ -257,16 +290,16 @@ Proof.
     cbn [fst] in *. constructor; cbn; try apply H. reflexivity.
   - (* SaveBegin *)
     destruct (s_inflight s) eqn:Ei; [exact I|]. destruct (negb (s_any_dirty s)); [exact I|].
-    cbn [fst]. constructor; cbn; try apply I; try discriminate.
-    intros dump dl [= <- <-] vb d Hd. apply lookup_dump_of in Hd. destruct Hd as (o & Ho & ->).
-    apply valid_doc_of. exact (inv_offs s I vb o Ho).
+    now apply Inv_save_body.
+  - (* SaveQueue *)
+    destruct (s_inflight s); [|exact I]. destruct (negb (s_any_dirty s)); [exact I|]. eapply Inv_proj; eauto.
   - (* SaveWrite *)
     destruct (s_inflight s) as [[dump dl]|] eqn:Ei; [|exact I].
     destruct (lookup_doc dump vb) as [d|] eqn:El; [|exact I]. destruct (mem vb dl); [|exact I].
     cbn [fst]. constructor; cbn; try apply I.
     intros v x Hx. apply fupd_cases in Hx. destruct Hx as [[-> ->]|[_ Hx]]; [exact (inv_inflight s I _ _ Ei _ _ El)|exact (inv_store s I v x Hx)].
   - (* SaveEnd *)
-    destruct (s_inflight s) as [[dump dl]|] eqn:Ei; [|exact I]. destruct ok; cbn [fst].
+    destruct (s_inflight s) as [[dump dl]|] eqn:Ei; [|exact I]. destruct ok; apply Inv_next_queued.
     + constructor; cbn; try apply I; try discriminate.
       intros v x Hx. apply fold_store_cases in Hx. destruct Hx as [Hx|Hx]; [exact (inv_store s I v x Hx)|exact (inv_inflight s I _ _ Ei _ _ Hx)].
     + constructor; cbn; try apply I; try discriminate. reflexivity.
@@ -331,10 +364,22 @@ Proof.
   destruct (s_offs s vb); [destruct Hx as [<-|[]]; exact I|contradiction].
 Qed.
 
+Lemma save_body_outs_valid s : Inv s -> Forall out_valid (snd (save_body s)).
+Proof.
+  intros I. unfold save_body; cbn [snd]. apply Forall_cons; [|apply Forall_nil]. cbn. intros vb d Hd.
+  apply in_dump_of in Hd. destruct Hd as (o & Ho & ->). apply valid_doc_of. exact (inv_offs s I vb o Ho).
+Qed.
+
+Lemma next_queued_outs_valid s : Inv s -> Forall out_valid (snd (next_queued s)).
+Proof.
+  intros I. unfold next_queued. destruct (s_queued s) as [|q]; [apply Forall_nil|].
+  apply save_body_outs_valid. eapply Inv_proj; eauto.
+Qed.
+
 Theorem step_outputs_valid s o : Inv s -> Forall out_valid (snd (step s o)).
 Proof.
   intros I. unfold step. destruct (s_failed s); [triv_forall|].
-  destruct o as [first last sv| |first last sv|cancel|vb e|i| |vb|ok| |high|vb c uuid roll].
+  destruct o as [first last sv| |first last sv|cancel|vb e|i| | |vb|ok| |high|vb c uuid roll].
   - destruct (s_open s || s_balancing s); [triv_forall|].
     destruct (do_open s first last sv) as [[s' outs]|] eqn:E; cbn [snd]; [eapply open_outs_valid; eauto|triv_forall].
   - destruct (negb (s_open s) || s_balancing s); [triv_forall|].
@@ -357,11 +402,15 @@ Proof.
     assert (V : valid o) by (eapply (inv_ctxs s I); eapply nth_error_In; eauto).
     pose proof (set_offset_outs_valid s vb o true V) as H. destruct (set_offset s vb o true) as [s1 outs]. exact H.
   - destruct (s_inflight s); [triv_forall|]. destruct (negb (s_any_dirty s)); [triv_forall|].
-    cbn [snd]. apply Forall_cons; [|apply Forall_nil]. cbn. intros vb d Hd. apply in_dump_of in Hd. destruct Hd as (o & Ho & ->).
-    apply valid_doc_of. exact (inv_offs s I vb o Ho).
+    now apply save_body_outs_valid.
+  - destruct (s_inflight s); [|triv_forall]. destruct (negb (s_any_dirty s)); triv_forall.
   - destruct (s_inflight s) as [[dump dl]|]; [|triv_forall].
     destruct (lookup_doc dump vb); [|triv_forall]. destruct (mem vb dl); triv_forall.
-  - destruct (s_inflight s) as [[dump dl]|]; [|triv_forall]. destruct ok; triv_forall.
+  - destruct (s_inflight s) as [[dump dl]|] eqn:Ei; [|triv_forall].
+    destruct ok; apply next_queued_outs_valid.
+    + constructor; cbn; try apply I; try discriminate.
+      intros v x Hx. apply fold_store_cases in Hx. destruct Hx as [Hx|Hx]; [exact (inv_store s I v x Hx)|exact (inv_inflight s I _ _ Ei _ _ Hx)].
+    + constructor; cbn; try apply I; try discriminate. reflexivity.
   - triv_forall.
   - destruct (s_obs_nil s); triv_forall.
   - destruct (s_obs s vb) as [ob|]; [|triv_forall]. destruct (ob_end_closed ob); [triv_forall|].
@@ -377,7 +426,7 @@ Qed.
 (* ---------- C04: within a session the tracked position only moves forward ---------- *)
 Definition session_op (o : op) : bool :=
   match o with
-  | Deliver _ _ | Ack _ | SaveBegin | SaveWrite _ | SaveEnd _ | Scrape _ | End _ _ _ _ => true
+  | Deliver _ _ | Ack _ | SaveBegin | SaveQueue | SaveWrite _ | SaveEnd _ | Scrape _ | End _ _ _ _ => true
   | _ => false
   end.
 
@@ -399,7 +448,7 @@ Theorem session_step_mono s o v cur :
 Proof.
   intros So Hc. assert (Same : exists cur', s_offs s v = Some cur' /\ o_seq cur <= o_seq cur') by (exists cur; split; [exact Hc|lia]).
   unfold step. destruct (s_failed s); [exact Same|].
-  destruct o as [first last sv| |first last sv|cancel|vb e|i| |vb|ok| |high|vb c uuid roll]; try discriminate.
+  destruct o as [first last sv| |first last sv|cancel|vb e|i| | |vb|ok| |high|vb c uuid roll]; try discriminate.
   - destruct (s_obs s vb) as [ob|]; [|exact Same].
     destruct (obs_event (s_cfg s) ob e) as [ob' f].
     destruct f as [|k it o coll t|o|]; cbn [fst]; try exact Same.
@@ -408,9 +457,11 @@ Proof.
   - destruct (nth_error (s_ctxs s) i) as [[vb o]|]; [|exact Same].
     pose proof (set_offset_mono s vb o true v cur Hc) as H. destruct (set_offset s vb o true) as [s1 outs]. exact H.
   - destruct (s_inflight s); [exact Same|]. destruct (negb (s_any_dirty s)); exact Same.
+  - destruct (s_inflight s); [|exact Same]. destruct (negb (s_any_dirty s)); exact Same.
   - destruct (s_inflight s) as [[dump dl]|]; [|exact Same].
     destruct (lookup_doc dump vb); [|exact Same]. destruct (mem vb dl); exact Same.
-  - destruct (s_inflight s) as [[dump dl]|]; [|exact Same]. destruct ok; exact Same.
+  - destruct (s_inflight s) as [[dump dl]|]; [|exact Same].
+    destruct ok; match goal with |- context [next_queued ?x] => rewrite (proj1 (next_queued_fields x)) end; exact Same.
   - destruct (s_obs_nil s); exact Same.
   - destruct (s_obs s vb) as [ob|]; [|exact Same]. destruct (ob_end_closed ob); [exact Same|].
     destruct c; try exact Same. destruct (s_cancel s); [exact Same|]. destruct (s_offs s vb); exact Same.
@@ -513,12 +564,24 @@ Section Log.
     - destruct H as [_ ->]. eapply LogInv_mono; eauto.
   Qed.
 
+  Lemma LogInv_save_body s L : LogInv s L -> LogInv (fst (save_body s)) L.
+  Proof.
+    intros [LA LB LC]. unfold save_body; cbn [fst]. constructor; cbn; [exact LA| |exact LC].
+    intros dump dl [= <- <-] vb d Hd. apply lookup_dump_of in Hd. destruct Hd as (o & Ho & ->). exists o. split; [eauto|reflexivity].
+  Qed.
+
+  Lemma LogInv_next_queued s L : LogInv s L -> LogInv (fst (next_queued s)) L.
+  Proof.
+    intros LI. unfold next_queued. destruct (s_queued s) as [|q]; [exact LI|].
+    apply LogInv_save_body. eapply LogInv_proj; eauto.
+  Qed.
+
   Theorem LogInv_step s L o : LogInv s L -> LogInv (fst (step s o)) (L ++ log_add s o).
   Proof.
     intros LI. assert (M : forall x, In x L -> In x (L ++ log_add s o)) by (intros; apply in_or_app; now left).
     assert (Same : LogInv s (L ++ log_add s o)) by (eapply LogInv_mono; eauto).
     unfold step, log_add in *. destruct (s_failed s); [exact Same|].
-    destruct o as [first last sv| |first last sv|cancel|vb e|i| |vb|ok| |high|vb c uuid roll].
+    destruct o as [first last sv| |first last sv|cancel|vb e|i| | |vb|ok| |high|vb c uuid roll].
     - (* Open *)
       destruct (s_open s || s_balancing s); [exact Same|].
       destruct (do_open s first last sv) as [[s' outs]|] eqn:E; cbn [fst]; [|eapply LogInv_proj; eauto].
@@ -562,15 +625,16 @@ Section Log.
       cbn [fst] in *. eapply LogInv_proj; eauto.
     - (* SaveBegin *)
       rewrite app_nil_r in *. destruct (s_inflight s) eqn:Ei; [exact LI|]. destruct (negb (s_any_dirty s)); [exact LI|].
-      cbn [fst]. destruct LI as [LA LB LC]. constructor; cbn; [exact LA| |exact LC].
-      intros dump dl [= <- <-] vb d Hd. apply lookup_dump_of in Hd. destruct Hd as (o & Ho & ->). exists o. split; [eauto|reflexivity].
+      now apply LogInv_save_body.
+    - (* SaveQueue *)
+      rewrite app_nil_r in *. destruct (s_inflight s); [|exact LI]. destruct (negb (s_any_dirty s)); [exact LI|]. eapply LogInv_proj; eauto.
     - (* SaveWrite *)
       rewrite app_nil_r in *. destruct (s_inflight s) as [[dump dl]|] eqn:Ei; [|exact LI].
       destruct (lookup_doc dump vb) as [d|] eqn:El; [|exact LI]. destruct (mem vb dl); [|exact LI].
       cbn [fst]. destruct LI as [LA LB LC]. constructor; cbn; [exact LA|intros dump0 dl0 E0; try rewrite Ei in E0; injection E0 as <- <-; exact (LB _ _ Ei)|].
       intros v x Hx. apply fupd_cases in Hx. destruct Hx as [[-> ->]|[_ Hx]]; [right; exact (LB _ _ Ei _ _ El)|exact (LC _ _ Hx)].
     - (* SaveEnd *)
-      rewrite app_nil_r in *. destruct (s_inflight s) as [[dump dl]|] eqn:Ei; [|exact LI]. destruct ok; cbn [fst].
+      rewrite app_nil_r in *. destruct (s_inflight s) as [[dump dl]|] eqn:Ei; [|exact LI]. destruct ok; apply LogInv_next_queued.
       + destruct LI as [LA LB LC]. constructor; cbn; [exact LA|discriminate|].
         intros v x Hx. apply fold_store_cases in Hx. destruct Hx as [Hx|Hx]; [exact (LC _ _ Hx)|right; exact (LB _ _ Ei _ _ Hx)].
       + destruct LI as [LA LB LC]. constructor; cbn; [exact LA|discriminate|exact LC].
@@ -653,10 +717,15 @@ Qed.
 Lemma save_end_ok_spec s dump dl :
   s_failed s = false -> s_inflight s = Some (dump, dl) ->
   let s' := fst (step s (SaveEnd true)) in
-  s_inflight s' = None /\ s_offs s' = s_offs s /\ s_dirty s' = s_dirty s /\ s_any_dirty s' = s_any_dirty s /\
-  (forall vb d, In vb dl -> lookup_doc dump vb = Some d -> s_store s' vb = Some d).
+  s_offs s' = s_offs s /\
+  (forall vb d, In vb dl -> lookup_doc dump vb = Some d -> s_store s' vb = Some d) /\
+  (s_queued s = 0%nat -> s_inflight s' = None /\ s_dirty s' = s_dirty s /\ s_any_dirty s' = s_any_dirty s).
 Proof.
-  intros F I. unfold step. rewrite F, I. cbn. repeat split; auto. intros vb d Hin Hl. now apply fold_store_hit.
+  intros F I. unfold step. rewrite F, I.
+  match goal with |- context [next_queued ?x] => pose proof (next_queued_fields x) as (Ho & _ & Hs & _) end.
+  cbn zeta. rewrite Ho, Hs. cbn [s_offs s_store set_inflight set_store]. split; [reflexivity|]. split.
+  - intros vb d Hin Hl. now apply fold_store_hit.
+  - intros Q. unfold next_queued. cbn [s_queued set_inflight set_store]. rewrite Q. cbn. auto.
 Qed.
 
 Lemma fold_dirty_hit dl vb : In vb dl -> forall m : fmap bool, fold_left (fun m v => fupd m v true) dl m vb = Some true.
@@ -679,13 +748,23 @@ Qed.
 Lemma save_end_fail_spec s dump dl :
   s_failed s = false -> s_inflight s = Some (dump, dl) ->
   let s' := fst (step s (SaveEnd false)) in
-  s_inflight s' = None /\ s_offs s' = s_offs s /\ s_store s' = s_store s /\ s_any_dirty s' = true /\
-  (forall vb, In vb dl -> s_dirty s' vb = Some true) /\
-  (forall vb, s_dirty s vb = Some true -> s_dirty s' vb = Some true).
+  s_offs s' = s_offs s /\ s_store s' = s_store s /\
+  (* nothing is forgotten: every mark is back in the dirty set, or already in the hands of the next queued save *)
+  (forall vb, vb <= 1023 -> In vb dl \/ s_dirty s vb = Some true ->
+     s_dirty s' vb = Some true \/ exists dump' dl', s_inflight s' = Some (dump', dl') /\ In vb dl') /\
+  (s_queued s = 0%nat -> s_inflight s' = None /\ s_any_dirty s' = true).
 Proof.
-  intros F I. unfold step. rewrite F, I. cbn. repeat split; auto.
-  - intros vb Hin. now apply fold_dirty_hit.
-  - intros vb H. now apply fold_dirty_keeps.
+  intros F I. unfold step. rewrite F, I.
+  match goal with |- context [next_queued ?x] => pose proof (next_queued_fields x) as (Ho & _ & Hs & _) end.
+  cbn zeta. rewrite Ho, Hs. cbn [s_offs s_store set_inflight set_dirty]. split; [reflexivity|]. split; [reflexivity|]. split.
+  - intros vb Hb Hm.
+    assert (M : fold_left (fun m v => fupd m v true) dl (s_dirty s) vb = Some true).
+    { destruct Hm as [Hin|Hd]; [now apply fold_dirty_hit|now apply fold_dirty_keeps]. }
+    unfold next_queued. cbn [s_queued set_inflight set_dirty]. destruct (s_queued s) as [|q]; [left; exact M|].
+    right. pose proof (save_body_fields (set_queued (set_inflight (set_dirty s (fold_left (fun m v => fupd m v true) dl (s_dirty s)) true) None) q)) as SB.
+    cbn zeta in SB. destruct SB as (_ & _ & _ & _ & _ & _ & _ & _ & _ & SI & _). rewrite SI. eexists _, _. split; [reflexivity|].
+    apply in_dirty_of; [apply (in_vb_list 0 1023); lia|exact M].
+  - intros Q. unfold next_queued. cbn [s_queued set_inflight set_dirty]. rewrite Q. cbn. auto.
 Qed.
 
 Definition keeps_inflight (o : op) : bool :=
@@ -700,7 +779,7 @@ Qed.
 Lemma step_keeps_inflight s o : keeps_inflight o = true -> s_inflight (fst (step s o)) = s_inflight s.
 Proof.
   intros K. unfold step. destruct (s_failed s); [reflexivity|].
-  destruct o as [first last sv| |first last sv|cancel|vb e|i| |vb|ok| |high|vb c uuid roll]; try discriminate.
+  destruct o as [first last sv| |first last sv|cancel|vb e|i| | |vb|ok| |high|vb c uuid roll]; try discriminate.
   - destruct (s_open s || s_balancing s); [reflexivity|]. unfold do_open.
     destruct (load_all _ _ _ _ _ _) as [[[? ?] ?]|]; reflexivity.
   - destruct (negb (s_open s) || s_balancing s); reflexivity.
@@ -714,6 +793,7 @@ Proof.
     + now rewrite set_offset_inflight.
   - destruct (nth_error (s_ctxs s) i) as [[vb o]|]; [|reflexivity].
     pose proof (set_offset_inflight s vb o true) as H. destruct (set_offset s vb o true) as [s1 outs]. exact H.
+  - destruct (s_inflight s) eqn:Ei; [|cbn; congruence]. destruct (negb (s_any_dirty s)); cbn; congruence.
   - destruct (s_inflight s) as [[dump dl]|] eqn:Ei; [|cbn; congruence].
     destruct (lookup_doc dump vb); [|cbn; congruence]. destruct (mem vb dl); cbn; congruence.
   - destruct (s_obs_nil s); reflexivity.
@@ -745,7 +825,7 @@ Proof.
   destruct (save_begin_spec s F I A) as (_ & I1 & _).
   assert (I2 : s_inflight s2 = Some (dump_of (s_offs s) (range_list (s_range s)), dirty_of (s_dirty s) all_vbs)).
   { unfold s2. rewrite run_keeps_inflight by exact Hm. exact I1. }
-  destruct (save_end_ok_spec s2 _ _ F2 I2) as (_ & _ & _ & _ & W). apply W.
+  destruct (save_end_ok_spec s2 _ _ F2 I2) as (_ & W & _). apply W.
   - apply in_dirty_of; [apply in_vb_list; lia|exact Hd].
   - apply lookup_dump_of_complete; [|exact Ho].
     unfold in_range in Hr. destruct (s_range s) as [[a b]|]; [|discriminate].
@@ -793,7 +873,7 @@ Lemma step_active s o :
   s_active (fst (step s o)) = (if is_final_end s o then s_active s - 1 else s_active s)%Z.
 Proof.
   intros So. unfold step, is_final_end. destruct (s_failed s); [destruct o; reflexivity|]. cbn [negb andb].
-  destruct o as [first last sv| |first last sv|cancel|vb e|i| |vb|ok| |high|vb c uuid roll]; try discriminate.
+  destruct o as [first last sv| |first last sv|cancel|vb e|i| | |vb|ok| |high|vb c uuid roll]; try discriminate.
   - destruct (s_obs s vb) as [ob|]; [|reflexivity]. destruct (obs_event (s_cfg s) ob e) as [ob' f].
     destruct f as [|k it o coll t|o|]; cbn [fst]; try reflexivity.
     + destruct (is_meta (i_key it)); [|reflexivity].
@@ -804,9 +884,11 @@ Proof.
   - destruct (nth_error (s_ctxs s) i) as [[vb o]|]; [|reflexivity].
     pose proof (set_offset_spec s vb o true) as S. destruct (set_offset s vb o true) as [s1 outs]. destruct S as [R _]. apply R.
   - destruct (s_inflight s); [reflexivity|]. destruct (negb (s_any_dirty s)); reflexivity.
+  - destruct (s_inflight s); [|reflexivity]. destruct (negb (s_any_dirty s)); reflexivity.
   - destruct (s_inflight s) as [[dump dl]|]; [|reflexivity].
     destruct (lookup_doc dump vb); [|reflexivity]. destruct (mem vb dl); reflexivity.
-  - destruct (s_inflight s) as [[dump dl]|]; [|reflexivity]. destruct ok; reflexivity.
+  - destruct (s_inflight s) as [[dump dl]|]; [|reflexivity].
+    destruct ok; match goal with |- context [next_queued ?x] => pose proof (next_queued_fields x) as (_ & _ & _ & _ & _ & Ha & _) end; rewrite Ha; reflexivity.
   - destruct (s_obs_nil s); reflexivity.
   - destruct (s_obs s vb) as [ob|]; [|reflexivity]. destruct (ob_end_closed ob); [reflexivity|]. cbn [negb andb].
     destruct c; try reflexivity. destruct (s_cancel s); [reflexivity|]. destruct (s_offs s vb); reflexivity.
@@ -893,7 +975,7 @@ Proof.
   assert (Same : s_range s = s_range s /\ exists x, s_offs s vb = Some x /\ o_seq x = N.max (o_seq cur) (max_seq vb [])).
   { split; [reflexivity|]. exists cur. split; [exact Hc|cbn; lia]. }
   unfold step, log_add. destruct (s_failed s); [exact Same|].
-  destruct o as [first last sv| |first last sv|cancel|v e|i| |v|ok| |high|v c uuid roll]; try discriminate.
+  destruct o as [first last sv| |first last sv|cancel|v e|i| | |v|ok| |high|v c uuid roll]; try discriminate.
   - destruct (s_obs s v) as [ob|]; [|exact Same].
     destruct (obs_event (s_cfg s) ob e) as [ob' f]. cbn [snd].
     destruct f as [|k it o coll t|o|]; cbn [fst]; try exact Same.
@@ -904,9 +986,11 @@ Proof.
     pose proof (set_offset_range s v o true) as Rr. pose proof (set_offset_vb s v o true vb cur R Hc) as H.
     destruct (set_offset s v o true) as [s1 outs]. cbn [fst] in *. split; [exact Rr|exact H].
   - destruct (s_inflight s); [exact Same|]. destruct (negb (s_any_dirty s)); exact Same.
+  - destruct (s_inflight s); [|exact Same]. destruct (negb (s_any_dirty s)); exact Same.
   - destruct (s_inflight s) as [[dump dl]|]; [|exact Same].
     destruct (lookup_doc dump v); [|exact Same]. destruct (mem v dl); exact Same.
-  - destruct (s_inflight s) as [[dump dl]|]; [|exact Same]. destruct ok; exact Same.
+  - destruct (s_inflight s) as [[dump dl]|]; [|exact Same].
+    destruct ok; match goal with |- context [next_queued ?x] => pose proof (next_queued_fields x) as (Ho & _ & _ & _ & Hr & _) end; rewrite Ho, Hr; exact Same.
   - destruct (s_obs_nil s); exact Same.
   - destruct (s_obs s v) as [ob|]; [|exact Same]. destruct (ob_end_closed ob); [exact Same|].
     destruct c; try exact Same. destruct (s_cancel s); [exact Same|]. destruct (s_offs s v); exact Same.
